@@ -67,7 +67,11 @@ Definition batch_end_of (layouts : list (list (list N))) (rpt : nat) (i : nat) (
 
 (* ------------------------------------------------------------------ abstract store *)
 Inductive lkind := LPut | LDel | LPess.
-Record lock := mkLock { l_start : N; l_primary : list N; l_kind : lkind; l_val : list N }.
+(* l_async: the lock was written by an async-commit prewrite (use_async_commit); l_min_commit its min_commit_ts;
+   l_secs: the secondaries recorded in the PRIMARY lock of an async-commit transaction *)
+Record lock := mkLockA { l_start : N; l_primary : list N; l_kind : lkind; l_val : list N;
+                         l_async : bool; l_min_commit : N; l_secs : list (list N) }.
+Definition mkLock (s : N) (p : list N) (k : lkind) (v : list N) : lock := mkLockA s p k v false 0 [].
 Record write := mkWrite { w_start : N; w_commit : N; w_val : option (list N) }.   (* None = delete *)
 Record krec := mkRec { k_key : list N; k_lock : option lock; k_writes : list write }.
 Definition store := list krec.
@@ -80,17 +84,70 @@ Definition clear_lock (r : krec) : krec := mkRec (k_key r) None (k_writes r).
 
 Definition committed_in (ws : list write) (t : N) : option N :=
   match find (fun w => w_start w =? t) ws with Some w => Some (w_commit w) | None => None end.
-(* outcome of transaction (primary p, start t): Some commit_ts, or None (rolled back / to be rolled back) *)
+(* async commit: CheckSecondaryLocks on one secondary key: still locked by t (its min_commit_ts), or the lock
+   is missing (then the key's commit record of t, if any, decides; a pessimistic lock counts as missing) *)
+Inductive sec_answer := SLocked (mc : N) | SMissing (c : option N).
+Definition sec_answer_of (st : store) (t : N) (k : list N) : sec_answer :=
+  match find_key st k with
+  | Some r => match k_lock r with
+              | Some l => if (l_start l =? t) && negb (is_pess l) then SLocked (l_min_commit l)
+                          else SMissing (committed_in (k_writes r) t)
+              | None => SMissing (committed_in (k_writes r) t)
+              end
+  | None => SMissing None
+  end.
+(* a missing lock decides (commit ts of that key, or rollback); all locked => commit at the max min_commit_ts *)
+Fixpoint decide (acc : N) (answers : list sec_answer) : option N :=
+  match answers with
+  | [] => Some acc
+  | SMissing c :: _ => c
+  | SLocked mc :: rest => decide (N.max acc mc) rest
+  end.
+Definition async_decide (st : store) (l : lock) : option N :=
+  decide (l_min_commit l) (map (sec_answer_of st (l_start l)) (l_secs l)).
+
+(* the code's asyncResolveData.addKeys, one CheckSecondaryLocks answer (one region) at a time, in delivery order:
+   RLocked = every requested key still locked (their min_commit_ts), RMissing c = some lock missing, commit ts c (0 = rolled back) *)
+Inductive region_answer := RLocked (mcs : list N) | RMissing (c : N).
+Record async_data := mkAD { ad_commit : N; ad_missing : bool }.
+Definition add_keys (d : async_data) (a : region_answer) : option async_data :=   (* None = error returned *)
+  match a with
+  | RMissing c =>
+      if ad_missing d then (if ad_commit d =? c then Some d else None)
+      else if negb (c =? 0) && (c <? ad_commit d) then None
+      else Some (mkAD c true)
+  | RLocked mcs =>
+      Some (fold_left (fun d mc => if negb (ad_missing d) && (ad_commit d <? mc) then mkAD mc (ad_missing d) else d) mcs d)
+  end.
+Fixpoint add_all (d : async_data) (answers : list region_answer) : option async_data :=
+  match answers with
+  | [] => Some d
+  | a :: rest => match add_keys d a with Some d' => add_all d' rest | None => None end
+  end.
+(* checkAllSecondaries: shared.commitTs starts at the primary's min_commit_ts *)
+Definition check_all_secondaries (primary_min_commit : N) (answers : list region_answer) : option N :=
+  match add_all (mkAD primary_min_commit false) answers with Some d => Some (ad_commit d) | None => None end.
+
+(* outcome of transaction (primary p, start t): Some commit_ts, or None (rolled back / to be rolled back).
+   While an async-commit primary lock is in place the secondaries decide. *)
 Definition committed_at (st : store) (p : list N) (t : N) : option N :=
-  match find_key st p with Some r => committed_in (k_writes r) t | None => None end.
+  match find_key st p with
+  | Some r => match k_lock r with
+              | Some l => if (l_start l =? t) && l_async l then async_decide st l else committed_in (k_writes r) t
+              | None => committed_in (k_writes r) t
+              end
+  | None => None
+  end.
 
 (* CheckTxnStatus(primary p, lock ts t, current ts = max, rollback-if-not-exist): a lock of t on p is
-   removed whatever its ttl; otherwise the commit record decides *)
+   removed whatever its ttl -- except an async-commit primary, which is never rolled back: then
+   checkAllSecondaries decides (the lock stays until its region is resolved); otherwise the commit record decides *)
 Definition status_check (st : store) (p : list N) (t : N) : store * option N :=
   match find_key st p with
   | Some r =>
       match k_lock r with
-      | Some l => if l_start l =? t then (upd_key st p clear_lock, None)
+      | Some l => if l_start l =? t then
+                    (if l_async l && negb (is_pess l) then (st, async_decide st l) else (upd_key st p clear_lock, None))
                   else (st, committed_in (k_writes r) t)
       | None => (st, committed_in (k_writes r) t)
       end
@@ -147,6 +204,43 @@ Fixpoint collect (st : store) (locks : list krec) (infos : list (N * option N)) 
           end
       end
   end.
+(* the same with TiKV's / unistore's primary check: CheckTxnStatus on a key whose lock of t names another primary
+   answers PrimaryMismatch; getTxnStatus returns that error and BatchResolveLocks fails (None): the GC pass fails.
+   (mocktikv has no such check: collect is what runs there.) *)
+Definition primary_mismatch (st : store) (p : list N) (t : N) : bool :=
+  match find_key st p with
+  | Some r => match k_lock r with
+              | Some l => (l_start l =? t) && negb (bytes_eqb (l_primary l) p)
+              | None => false end
+  | None => false
+  end.
+Fixpoint collect_v (st : store) (locks : list krec) (infos : list (N * option N)) : option (store * list (N * option N)) :=
+  match locks with
+  | [] => Some (st, infos)
+  | r :: rest =>
+      match k_lock r with
+      | None => collect_v st rest infos
+      | Some l =>
+          match assoc (l_start l) infos with
+          | Some _ => collect_v st rest infos
+          | None =>
+              if primary_mismatch st (l_primary l) (l_start l) then None else
+              let '(st1, oc) := status_check st (l_primary l) (l_start l) in
+              if is_pess l then
+                let st2 := if bytes_eqb (k_key r) (l_primary l) then st1
+                           else pess_rollback st1 (k_key r) (l_start l) in
+                collect_v st2 rest infos
+              else collect_v st1 rest ((l_start l, oc) :: infos)
+          end
+      end
+  end.
+(* no lock of t sits on a key that another lock of t names as primary without being self-primary *)
+Definition primaries_okb (st : store) : bool :=
+  forallb (fun r1 => forallb (fun r2 =>
+    match k_lock r1, k_lock r2 with
+    | Some l1, Some l2 => negb ((l_start l1 =? l_start l2) && bytes_eqb (k_key r2) (l_primary l1)) || bytes_eqb (l_primary l2) (k_key r2)
+    | _, _ => true end) st) st.
+
 Definition batch_resolve (st : store) (rs re : list N) (locks : list krec) : store :=
   match locks with
   | [] => st
@@ -308,9 +402,22 @@ Definition w23_pair (r1 r2 : krec) : bool :=
 (* keys strictly increasing and non-empty; (W1) a key never holds both a lock and a data write of the same
    start ts; (W2) the non-pessimistic locks of one start ts name the same primary; (W3) the key named as
    primary by a pessimistic lock does not hold a secondary (non-self-primary) prewrite lock of that start ts *)
+Definition opt_eqb (a b : option N) : bool :=
+  match a, b with Some x, Some y => x =? y | None, None => true | _, _ => false end.
+(* W4 the "lock missing" answers of the secondaries of an async-commit primary lock agree with each other;
+   W5 an async-commit lock is not a pessimistic lock *)
+Definition w4_rec (st : store) (r : krec) : bool :=
+  match k_lock r with
+  | Some l => if l_async l then
+                let ans := map (sec_answer_of st (l_start l)) (l_secs l) in
+                negb (is_pess l) &&
+                forallb (fun a => forallb (fun b => match a, b with SMissing c1, SMissing c2 => opt_eqb c1 c2 | _, _ => true end) ans) ans
+              else true
+  | None => true
+  end.
 Definition wf_storeb (st : store) : bool :=
   sorted_keys st && forallb (fun r => negb (is_nil (k_key r)) && w1_rec r) st
-  && forallb (fun r1 => forallb (w23_pair r1) st) st.
+  && forallb (fun r1 => forallb (w23_pair r1) st) st && forallb (w4_rec st) st.
 (* the interference is legitimate w.r.t. the store st0 the pass started from *)
 Definition env_okb (st0 : store) (sp : N) (a : env_act) : bool :=
   match a with
